@@ -69,6 +69,7 @@ func check(c Case) *vk.Violation {
 	if pn := vk.Guarded("period", "ToValidatePeriod/hang", func() any { return c }, func() { out, err = smpp.ToValidatePeriod(c.now(), c.Dur, c.Relative) }); pn != "" {
 		return vk.Violf("ToValidatePeriod/panic", c, "ToValidatePeriod panicked\n%s", pn)
 	}
+	vk.RetainString("ToValidatePeriod", out)
 	form := "absolute"
 	if c.Relative {
 		form = "relative"
@@ -187,8 +188,28 @@ func render(t *rapid.T, ns int64) string {
 	}
 	if neg {
 		s = "-" + s
+	} else if rapid.IntRange(0, 7).Draw(t, "plus") == 0 {
+		s = "+" + s
 	}
 	return s
+}
+
+// renderSingleUnit writes a whole number of seconds / minutes / hours as ONE count and ONE unit, optionally
+// with leading zeros (valid time.ParseDuration input: "010s" is ten seconds, not octal).
+func renderSingleUnit(t *rapid.T, secs int64) (string, bool) {
+	unit, div := "s", int64(1)
+	switch {
+	case secs%3600 == 0 && rapid.Bool().Draw(t, "ash"):
+		unit, div = "h", 3600
+	case secs%60 == 0 && rapid.Bool().Draw(t, "asm"):
+		unit, div = "m", 60
+	}
+	width := rapid.SampledFrom([]int{0, 0, 2, 3, 4, 6}).Draw(t, "zeropad")
+	s := fmt.Sprintf("%0*d%s", width, secs/div, unit)
+	if rapid.IntRange(0, 5).Draw(t, "plus1") == 0 {
+		s = "+" + s
+	}
+	return s, true
 }
 
 const day = int64(86400)
@@ -281,6 +302,9 @@ func TestPeriods(t *testing.T) {
 		}
 		if c.Valid {
 			c.Dur = render(t, c.Nanos)
+			if c.Nanos >= 0 && c.Nanos%1e9 == 0 && rapid.IntRange(0, 3).Draw(t, "singleunit") == 0 {
+				c.Dur, _ = renderSingleUnit(t, c.Nanos/1e9)
+			}
 			d, err := time.ParseDuration(c.Dur)
 			if err != nil || int64(d) != c.Nanos {
 				t.Fatalf("HARNESS: rendered %q for %d ns but ParseDuration gives %v, %v", c.Dur, c.Nanos, d, err)
